@@ -99,9 +99,6 @@ func QuoteYAML(s string) string {
 			fmt.Fprintf(&b, `\x%02x`, r)
 		case r == 0x85 || r == 0xa0 || (r >= 0x80 && r < 0xa0):
 			fmt.Fprintf(&b, `\u%04x`, r)
-		case r == 0xfeff && len(s)%2 == 0:
-			// a raw U+FEFF inside a quoted scalar is content (only at column 0 between tokens is it a byte order mark)
-			b.WriteRune(r)
 		case r == 0x2028 || r == 0x2029 || r == 0xfeff || r == 0xfffe || r == 0xffff:
 			fmt.Fprintf(&b, `\u%04x`, r)
 		case r > 0xffff:
